@@ -179,6 +179,22 @@ CLAIMS = {
             "every other check also treats a panic as a violation.",
             "Mutations of generated programs, not every string. Oracle says nothing about results.", "spec-generated corpus + mutation fuzzing of the real pipeline and CLI with a no-panic oracle",
             "DESIGN.md 6/C07"),
+    "C23": ("model_checking",
+            "JsonReader.tla models the JSON datasource (line reader, token channel bounding in-flight batches, shared parser pool, per-reader output channel, "
+            "in-order hand-over, early cancel, two concurrent readers); TLC checks in-order delivery, no loss/duplication, deadlock freedom and termination "
+            "for every interleaving. The real datasource then runs with JSONWorker/JSONReader hooks: forced batch release orders generated from the model's "
+            "reorderings and seeded delays, files of 0..3000 rows around batch boundaries, joins of two files. Lines.tla defines the split of a byte string "
+            "by a separator (TLC exports the cases); CSV/JSON/lines/stdin files with generated contents are compared row by row with the file's rows. "
+            "One genuine defect (multi-character separator) repaired.",
+            "Parquet not covered (no offline generator). Trusted: hooks, file writers.", "TLA+ spec + TLC model checking + schedule replay on the real datasource through hooks + TLC-exported split cases",
+            "DESIGN.md 6/C23"),
+    "C29": ("model_checking",
+            "Deadlock freedom and termination are decided on JoinMC.tla (stream/outer joins: every interleaving and close order) and JsonReader.tla (reader, "
+            "tokens, pool, reorder queue, early cancel, two readers) by TLC with deadlock checking on and termination under weak fairness; the real nodes run the "
+            "gated schedules and delayed/early-stopped/failed file queries with a stall timeout. Data-race freedom is outside what a TLA+ model decides: "
+            "it is monitored by the Go race detector on those same executions (harness and CLI built with -race, GOMAXPROCS 1/2/16, seeded delays).",
+            "Race freedom only on executed schedules. Trusted: Go race detector, hooks.", "TLA+ spec + TLC deadlock/liveness checking + schedule replay on -race builds of the real code",
+            "DESIGN.md 6/C29"),
 }
 
 NA_DEFAULT = "check not built yet (work in progress; will be claimed once its TLA+ spec and conformance harness are committed)"
